@@ -32,9 +32,12 @@ FILTER_ARGS = {"rs": [], "src": ["-f", "src/.*"], "none": ["-f", "nomatch_[0-9]"
                # groups, classes: the filter selects the paths it matches AS A WHOLE
                "alt": ["-f", r".*\.(rs|rs\.in)"], "lazy": ["-f", r".*?\.rs"],
                "opt": ["-f", r".*\.rs(\.in)?"], "cls": ["-f", r"src/[a-x]\.rs"],
-               "alt2": ["-f", r"src/(x|x\.rs\.d/z|y)\.rs"]}
+               "alt2": ["-f", r"src/(x|x\.rs\.d/z|y)\.rs"],
+               # a TOP-LEVEL alternation: each alternative has to match the whole path
+               "topalt": ["-f", r"src/x\.rs|y\.rs|src/brand_new\.rs"]}
 FILTER_RE = {"rs": r".*\.rs", "alt": r".*\.(rs|rs\.in)", "lazy": r".*?\.rs", "opt": r".*\.rs(\.in)?",
-             "cls": r"src/[a-x]\.rs", "alt2": r"src/(x|x\.rs\.d/z|y)\.rs"}
+             "cls": r"src/[a-x]\.rs", "alt2": r"src/(x|x\.rs\.d/z|y)\.rs",
+             "topalt": r"src/x\.rs|y\.rs|src/brand_new\.rs"}
 
 
 def render(patch):
